@@ -4,15 +4,15 @@ import json, sys
 
 PBT = "property-based testing (proptest generators, sharded deterministic runners, shrinking to replay files)"
 CHECKS = {
- "C08": ("exploration", "Generated envelope models + shipped models; K recomputed independently in f64 from the model (own envelope rule, net areas, multipliers, override > computed > 5.7, non-negative bridges); breakdown identities; metamorphic reorder/rename/re-id. Sampling of the model space, no proof.",
+ "C08": ("exploration", "Generated envelope models + shipped models; K recomputed independently in f64 from the model (own envelope rule, net areas, multipliers, override > computed > 5.7, non-negative bridges); breakdown identities (category means within [min, max] to 2e-4; user U values with two or four decimals); metamorphic reorder/rename/re-id. Sampling of the model space, no proof.",
          "per-element U-values are inputs (C06/C07 decide them); trusts rustc/std f64, proptest", PBT + " against an independent f64 reference model plus metamorphic relations"),
  "C09": ("exploration", "Generated envelope models incl. degenerate (zero volume, no exterior opaque area) + shipped models; n50_ref, test branch and back-calculated wall permeability recomputed in f64; identities among reported fields.",
          "per-space net heights are inputs (C11 checks them)", PBT + " against an independent f64 reference model"),
  "C10": ("exploration", "Generated models x 32 zones, exhaustive 32 zones x 9 orientation classes one-window models, shipped models; Q_sol;jul recomputed in f64 with the oracle's own sector classifier and own lookup in the embedded monthly table; breakdown, means, finiteness without windows. Two-decimal rounding ties are treated as intervals.",
          "computed F_sh;obst per window is an input (C12); embedded tables are data (C20)", PBT + " + exhaustive enumeration of zone x orientation, independent f64 reference model"),
- "C11": ("exploration", "Generated and shipped models: areas, net heights, A_ref, volumes, compactness, per-wall envelope membership and the two ventilation-rate implementations against an f64 recomputation; scaling law as metamorphic relation; classifiers on all class boundaries +-4096 ulps and 10^6 values (thorough: every f32 in [-720,1080]), parser vs model on [0,360].",
+ "C11": ("exploration", "Generated and shipped models: areas, net heights, A_ref, volumes, compactness, per-wall envelope membership and the two ventilation-rate implementations against an f64 recomputation, repeated in the same thread after an edit that deepens the floor slabs and leaves every space record unchanged; scaling law as metamorphic relation; classifiers on all class boundaries +-4096 ulps and 10^6 values (thorough: every f32 in [-720,1080]), parser vs model on [0,360].",
          "trusts rustc/std f64 rem_euclid for the exact residue", PBT + " with f64 reference model, metamorphic scaling, boundary-value and exhaustive f32 enumeration"),
- "C13": ("exploration", "Generated obstacle sets (0..200 boxes / posed polygons incl. duplicates and shared centres) x leaf sizes x rays: BVH answer must equal testing every element and build must terminate (worker process + watchdog); polygon/ray answers must match an exact f64 reference outside a 1 mm band; bounding boxes contain all corners; reveal quads of set-back windows must coincide with first-principles quads. Thorough tier only: a libFuzzer campaign over bytes decoded into boxes on a 1 cm grid with exact duplicates, leaf size and rays, with the BVH-vs-exhaustive oracle inside the target.",
+ "C13": ("exploration", "Generated obstacle sets (0..200 boxes / posed polygons incl. duplicates and shared centres) x leaf sizes x rays: BVH answer must equal testing every element and build must terminate (worker process + watchdog); polygon/ray answers must match an exact f64 reference outside a 1 mm band (one aimed ray in ten starts 0.3-4 mm in front of the plane; the side of the plane is undecided within 1e-4 m + 4e-5 x distance from the global origin); bounding boxes contain all corners; reveal quads of set-back windows must coincide with first-principles quads. Thorough tier only: a libFuzzer campaign over bytes decoded into boxes on a 1 cm grid with exact duplicates, leaf size and rays, with the BVH-vs-exhaustive oracle inside the target.",
          "trusts rustc/std f64, proptest RNG/shrinker; oracle geometry written independently in f64", PBT + " with differential oracle (BVH vs exhaustive) and exact f64 reference geometry; coverage-guided fuzzing (libFuzzer via cargo-fuzz, arbitrary::Unstructured decoding) in the thorough tier"),
  "C20": ("exploration", "All 365 dates (exhaustive); latitude x declination x hour-angle grid + random points against unit-vector spherical astronomy (directions, incidence angles, convention ties with the model's normals), plus surfaces that face the sun of each grid point exactly or within 0.002 degrees; radiation identities on random inputs and all 8760 hours of the shipped weather file; all 32 zones x 9 classes x 12 months and July-day tables (exhaustive) incl. D3 against the shipped file.",
          "the shipped zonaD3.met is the source of the D3 tables; trusts rustc/std f64 trigonometry", PBT + " + exhaustive enumeration (dates, table cells, weather-file hours) against an f64 astronomical reference"),
